@@ -290,7 +290,9 @@ fn stepper_spec(id: &'static str, rule: &'static str, cases: (u64, u64), mut ext
     let mut long = profile_for(id);
     long.geoms = GEOMS_SMALL;
     long.max_ops = 160;
-    subs.push(gen_sub("gen-long-histories", hist(long), run, (cases.0 / 10, cases.1 / 10), 4000));
+    subs.push(gen_sub("gen-long-histories", hist(long), run.clone(), (cases.0 / 10, cases.1 / 10), 4000));
+    // bounded-exhaustive: all operation sequences up to length 5 (6) over a fixed alphabet on 3x3
+    subs.push(exh::small_scope_sub(id, run));
     subs.append(&mut extra);
     Spec { id, rule, assumptions: STEP_ASSUME.to_vec(), subs }
 }
@@ -390,6 +392,24 @@ fn big_decode(flush: bool) -> DecodeFn {
     })
 }
 
+/// a whole state-reaching history rendered as escape sequences and cut into feed() calls
+/// (operations without a sequence - resize, display - stay API calls between the feeds)
+fn rendered_history_decode() -> DecodeFn {
+    let mut p = profile_for("C04");
+    p.via_parser = 256;
+    p.chunk = 150;
+    p.max_ops = 30;
+    p.w.edit = 10;
+    p.w.scroll = 10;
+    p.w.erase = 6;
+    p.w.save = 4;
+    p.w.resize = 2;
+    p.w.display = 0;
+    p.w.misc = 0;
+    p.fill = 140;
+    hist(p)
+}
+
 fn c01_decode_stream() -> DecodeFn {
     Arc::new(|s: &mut Src| {
         let (cols, lines) = gen::geometry(s, GEOMS_ALL);
@@ -457,10 +477,14 @@ pub fn spec(id: &str) -> Option<Spec> {
                 // replays (and crash attribution) run the case alone in a child process, so
                 // that aborts, stack overflows, hangs and deadlocks are verdicts too
                 let mut c = gen_sub("gen-big-feeds", big_decode(false), run.clone(), (320, 12_000), 200);
+                let mut d = gen_sub("gen-rendered-histories", rendered_history_decode(), run.clone(), (60_000, 2_000_000), 700);
                 a.replay = crate::runner::isolated(run.clone());
                 b.replay = crate::runner::isolated(run.clone());
-                c.replay = crate::runner::isolated(run);
-                vec![a, b, c]
+                c.replay = crate::runner::isolated(run.clone());
+                d.replay = crate::runner::isolated(run.clone());
+                let mut v = vec![a, b, c, d];
+                v.extend(exh::c01_subs(run));
+                v
             },
         },
         "C02" => Spec {
@@ -472,6 +496,7 @@ pub fn spec(id: &str) -> Option<Spec> {
                 let mut v = vec![
                     gen_sub("gen-chunking", c02_decode(), run.clone(), (120_000, 4_000_000), 700),
                     gen_sub("gen-big-feeds", big_decode(false), run.clone(), (320, 12_000), 200),
+                    gen_sub("gen-rendered-histories", rendered_history_decode(), run.clone(), (60_000, 2_000_000), 700),
                 ];
                 v.extend(exh::c02_subs(run));
                 v
